@@ -14,6 +14,7 @@ type tNet struct {
 	from, to             []int // link endpoints as indices into all
 	w                    []float64
 	nSensors             int
+	neuronsFirst         bool
 }
 
 type tNetCfg struct {
@@ -23,6 +24,7 @@ type tNetCfg struct {
 	symTypes               bool // activation type of each neuron symbolic (used with the uninterpreted act redirect)
 	biasFirst              bool // bias nodes are listed before the input nodes (sensor order is by id, not by role)
 	concreteW              bool // distinct concrete weights (keeps recurrent multi-step terms linear in the inputs)
+	neuronsFirst           bool // the network's node list names the neurons before the sensors (not grouped sensors-first)
 }
 
 func symW(tag string) float64 {
@@ -129,7 +131,8 @@ func tBuild(c tNetCfg) *tNet {
 		}
 	}
 	inputs := append([]*NNode{}, t.all[:t.nSensors]...)
-	t.net = NewNetwork(inputs, t.outs, t.all, 1)
+	t.neuronsFirst = c.neuronsFirst
+	t.net = NewNetwork(inputs, t.outs, t.listed(), 1)
 	return t
 }
 
@@ -228,4 +231,13 @@ func symInputs(n int) []float64 {
 		x[i] = symW("x")
 	}
 	return x
+}
+
+// listed: the node list handed to the network - t.all, or with the neurons named before the sensors
+func (t *tNet) listed() []*NNode {
+	if !t.neuronsFirst {
+		return t.all
+	}
+	l := append([]*NNode{}, t.all[t.nSensors:]...)
+	return append(l, t.all[:t.nSensors]...)
 }
